@@ -99,8 +99,8 @@ Section Proofs.
   Variable c0 : cstate M.
   Hypothesis c0_sorted : sorted (c_items c0).
 
-  Notation step := (step m_eqb m_empty w_validate w_merge clock_at str_ltb idfun false prog).
-  Notation run := (run m_eqb m_empty w_validate w_merge clock_at str_ltb idfun false prog).
+  Notation step := (step m_eqb m_empty w_validate w_merge clock_at str_ltb idfun false false prog).
+  Notation run := (run m_eqb m_empty w_validate w_merge clock_at str_ltb idfun false false prog).
   Notation s0 := (s0 prog v0 c0).
   Notation Inv := (Inv m_eqb m_empty w_validate w_merge clock_at str_ltb idfun prog v0 c0).
 
@@ -126,6 +126,7 @@ Section Proofs.
     destruct (nth_error prog t) as [c|]; [|exact H].
     destruct (nth_error (st_pcs s) t) as [p|]; [|exact H].
     destruct (trans c p (st_w s)) as [[[p' w'] eff]|]; [|exact H].
+    destruct (gate_open _ _ _ _ _) eqn:G; [|exact H].
     simpl. destruct (predicted c p), (predicted c p'); try exact H. apply in_or_app. left. exact H.
   Qed.
 
@@ -138,6 +139,7 @@ Section Proofs.
     destruct (nth_error prog t) as [c|] eqn:P; [|exfalso; apply Hv; reflexivity].
     destruct (nth_error (st_pcs s) t) as [p|] eqn:Q; [|exfalso; apply Hv; reflexivity].
     destruct (trans c p (st_w s)) as [[[p' w'] eff]|] eqn:T; [|exfalso; apply Hv; reflexivity].
+    destruct (gate_open _ _ _ _ _) eqn:G; [|exfalso; apply Hv; reflexivity].
     simpl in *. destruct (i_local I _ P Q) as [Hwf _].
     pose proof (trans_lin m_eqb m_empty w_validate w_merge clock_at str_ltb idfun m_eqb_eq c p (st_w s) (prog_ok _ P) Hwf T) as L.
     destruct (trans_commit _ _ _ (i_sorted I) T) as [Hsame|[(id0 & msg & o & nv & e & -> & -> & Hoth)|(id0 & o & b & e & -> & -> & -> & Hoth)]].
@@ -232,6 +234,7 @@ Section Proofs.
     destruct (nth_error prog t') as [c|]; [|simpl; auto].
     destruct (nth_error (st_pcs s) t') as [p0|]; [|simpl; auto].
     destruct (trans c p0 (st_w s)) as [[[p' w'] eff]|]; [|simpl; auto].
+    destruct (gate_open _ _ _ _ _) eqn:G; [|simpl; auto].
     simpl. rewrite nth_error_set_nth_other by congruence. auto.
   Qed.
 
@@ -246,6 +249,7 @@ Section Proofs.
     destruct (nth_error prog t) as [c|] eqn:P; [|simpl; intros H0; left; first [exact H0|rewrite Q in H0; exact H0]].
     destruct (nth_error (st_pcs s) t) as [p|] eqn:Q; [|simpl; intros H0; left; first [exact H0|rewrite Q in H0; exact H0]].
     destruct (trans c p (st_w s)) as [[[p1 w'] eff]|] eqn:T; [|simpl; intros H0; left; first [exact H0|rewrite Q in H0; exact H0]].
+    destruct (gate_open _ _ _ _ _) eqn:G; [|simpl; intros H0; left; first [exact H0|rewrite Q in H0; exact H0]].
     simpl. intros H.
     assert (Ht : (t < List.length (st_pcs s))%nat) by (apply nth_error_Some; rewrite Q; discriminate).
     rewrite nth_error_set_nth_same in H by exact Ht. inversion H. subst. right. eauto 10.
